@@ -136,6 +136,20 @@ def run_setops(case, ctx):
                 ctx.violation(f'index.{name}|wrong-label-set|pool={pool}', **info, got=got, expected=sorted(map(repr, exp)))
             elif ka == kb and name != 'difference' and got != ka:
                 ctx.violation(f'index.{name}|identical-operands-reordered|pool={pool}', **info, got=got, expected=ka)
+            # identical labels held in arrays of another width of the same kind (narrow op wide and wide op narrow): still identical operands
+            if ka == kb and sa and pool in ('int', 'str') and name != 'difference':
+                alt = sf.Index(np.array(list(sa), dtype='<U8' if pool == 'str' else np.int32))
+                for form, x, y in (('same-labels-wider-right' if pool == 'str' else 'same-labels-narrower-right', ia, alt),
+                                   ('same-labels-wider-left' if pool == 'str' else 'same-labels-narrower-left', alt, ib)):
+                    ctx.transition()
+                    try:
+                        r3 = getattr(x, name)(y)
+                    except Exception as e:
+                        ctx.violation(f'index.{name}|{form}|raises|{type(e).__name__}|pool={pool}', **info, error=repr(e))
+                        continue
+                    got3 = [lkey(v) for v in r3.values]
+                    if got3 != ka:
+                        ctx.violation(f'index.{name}|identical-operands-reordered|dtype-width-differs|pool={pool}', **info, form=form, got=got3, expected=ka)
             # the other operand as an unlabelled array / list that repeats a label: still plain set algebra, each label once
             if sb and pool in ('int', 'str', 'date'):
                 rep_b = list(sb) + [sb[0]]
